@@ -308,6 +308,11 @@ _amend('C18', 'Undecided multiple paths of unsigned 32- / 64-bit types are refut
 _amend('C19', 'The lowp vec3 specialisation of convertLinearToSRGB is the published root approximation c1 x^(1/2) + c2 x^(1/4) - c3 x^(1/8) - c4 x per component (constants as cited, s(1) = 1); its accuracy against the exact curve is not re-derived.')
 _amend('C10', 'Narrowing: a conversion to a narrower float format inside the term of a double result (a double value stored in a float temporary) refutes the entry - the normal forms read float arithmetic as exact and would not see it. The same test runs in the polynomial rules of C02 and in every rule built on spec.compare.')
 _amend('C14', 'A step term that is not a next-after chain on the component is evaluated exactly at sample values and refuted when it is not the n-th neighbour in the component\'s own format.')
+_amend('C04', 'Narrowing (rules/narrow.py): no lane term of a kernel with a double result may contain a conversion to a narrower float format (a double value stored in a float temporary has float accuracy only, which the exact-arithmetic normal forms cannot see); kernels with float inputs are exempt.')
+_amend('C08', 'Narrowing (rules/narrow.py): no lane term of a kernel with a double result may contain a conversion to a narrower float format (a double value stored in a float temporary has float accuracy only, which the exact-arithmetic normal forms cannot see); kernels with float inputs are exempt.')
+_amend('C09', 'Narrowing (rules/narrow.py): no lane term of a kernel with a double result may contain a conversion to a narrower float format (a double value stored in a float temporary has float accuracy only, which the exact-arithmetic normal forms cannot see); kernels with float inputs are exempt.')
+_amend('C12', 'Narrowing (rules/narrow.py): no lane term of a kernel with a double result may contain a conversion to a narrower float format (a double value stored in a float temporary has float accuracy only, which the exact-arithmetic normal forms cannot see); kernels with float inputs are exempt.')
+_amend('C13', 'Narrowing (rules/narrow.py): no lane term of a kernel with a double result may contain a conversion to a narrower float format (a double value stored in a float temporary has float accuracy only, which the exact-arithmetic normal forms cannot see); kernels with float inputs are exempt.')
 _amend('C20', 'The five multiple functions are also analysed on one-point boxes at both ends of the signed 32- / 64-bit ranges (x = max - 1 and min + 2 with m = 3, where the answer is representable).')
 _amend('C10', 'The aligned double matrix types of the SSE2 configuration are analysed in the quick tier as well (the aligned inverse(mat3) for double runs on the generic vec4 cross-product overload).')
 _amend('C17', 'The SIMD swizzle specialisations are instantiated for float, int and uint (and double under AVX2 in the thorough tier), for 2-, 3- and 4-component results from aligned sources.')
